@@ -126,6 +126,99 @@ theorem lookup_filter_self (idx : CfIndex) (bh : Bytes) :
   rw [List.mem_filter] at hx
   simpa using hx.2
 
+theorem connect_spec (Hk : Bytes → Bytes → Nat) (dsha : Bytes → Bytes) (idx idx' : CfIndex)
+    (bh prev : Bytes) (outs : List (List Bytes)) (prevs : List Bytes)
+    (h : idx.connect Hk dsha bh prev outs prevs = some idx') :
+    ∃ f ph, buildBasicFilter Hk bh outs prevs = .ok f ∧
+      ((prev = zeroHash ∧ ph = zeroHash) ∨ (prev ≠ zeroHash ∧ ∃ e, idx.lookup prev = some e ∧ ph = e.header)) ∧
+      idx'.lookup bh = some ⟨bh, f.nBytes, filterHash dsha f, filterHeader dsha (filterHash dsha f) ph⟩ ∧
+      ∀ x, x ≠ bh → idx'.lookup x = idx.lookup x := by
+  unfold CfIndex.connect at h
+  cases hf : buildBasicFilter Hk bh outs prevs with
+  | error e => rw [hf] at h; cases h
+  | ok f =>
+    rw [hf] at h
+    simp only [] at h
+    have key : ∀ (ph : Bytes) (x : Bytes), x ≠ bh →
+        CfIndex.lookup (⟨bh, f.nBytes, filterHash dsha f, makeHeaderForFilter dsha f ph⟩ ::
+          idx.filter (fun y => y.blockHash != bh)) x = idx.lookup x := by
+      intro ph x hx
+      rw [CfIndex.lookup, List.find?_cons]
+      have : (bh == x) = false := by simp; exact fun e => hx e.symm
+      simp only [this]
+      exact lookup_filter_ne idx bh x hx
+    by_cases hz : prev = zeroHash
+    · have hz' : (prev == zeroHash) = true := by simp [hz]
+      rw [hz'] at h
+      simp only [if_true] at h
+      injection h with h; subst h
+      exact ⟨f, zeroHash, rfl, Or.inl ⟨hz, rfl⟩, lookup_cons_self _ _, key zeroHash⟩
+    · have hz' : (prev == zeroHash) = false := by simp [hz]
+      rw [hz'] at h
+      simp only [Bool.false_eq_true, if_false] at h
+      cases hl : idx.lookup prev with
+      | none => rw [hl] at h; cases h
+      | some e =>
+        rw [hl] at h
+        simp only [Option.map_some] at h
+        injection h with h; subst h
+        exact ⟨f, e.header, rfl, Or.inr ⟨hz, e, rfl, rfl⟩, lookup_cons_self _ _, key e.header⟩
+
+theorem connectAll_other (Hk : Bytes → Bytes → Nat) (dsha : Bytes → Bytes) (bs : List CfBlockIn) :
+    ∀ (idx idx' : CfIndex) (x : Bytes), x ∉ bs.map (·.bh) →
+      CfIndex.connectAll Hk dsha idx bs = some idx' → idx'.lookup x = idx.lookup x := by
+  induction bs with
+  | nil => intro idx idx' x _ h; simp only [CfIndex.connectAll] at h; injection h with h; rw [h]
+  | cons b bs ih =>
+    intro idx idx' x hx h
+    simp only [CfIndex.connectAll] at h
+    cases hc : idx.connect Hk dsha b.bh b.prev b.outs b.prevs with
+    | none => rw [hc] at h; cases h
+    | some idx1 =>
+      rw [hc] at h
+      simp only [List.map_cons, List.mem_cons, not_or] at hx
+      obtain ⟨_, _, _, _, _, hoth⟩ := connect_spec Hk dsha idx idx1 b.bh b.prev b.outs b.prevs hc
+      rw [ih idx1 idx' x hx.2 h, hoth x hx.1]
+
+/-- BIP157 over the index: after connecting a linked list of blocks with distinct hashes, the stored
+    headers are the header chain of their filter hashes -/
+theorem connectAll_headers (Hk : Bytes → Bytes → Nat) (dsha : Bytes → Bytes) (bs : List CfBlockIn) :
+    ∀ (idx idx' : CfIndex) (first firstHeader : Bytes),
+      ((first = zeroHash ∧ firstHeader = zeroHash) ∨
+        (first ≠ zeroHash ∧ ∃ e, idx.lookup first = some e ∧ e.header = firstHeader)) →
+      cfLinked first bs → (bs.map (·.bh)).Nodup → (∀ b ∈ bs, b.bh ≠ zeroHash) → first ∉ bs.map (·.bh) →
+      CfIndex.connectAll Hk dsha idx bs = some idx' →
+      bs.map (fun b => (idx'.lookup b.bh).map (·.header)) =
+        (headerChain dsha firstHeader (bs.map (cfFilterHash Hk dsha))).map some := by
+  induction bs with
+  | nil => intro _ _ _ _ _ _ _ _ _ _; rfl
+  | cons b bs ih =>
+    intro idx idx' first firstHeader hfirst hlink hnd hnz hnot h
+    simp only [CfIndex.connectAll] at h
+    cases hc : idx.connect Hk dsha b.bh b.prev b.outs b.prevs with
+    | none => rw [hc] at h; cases h
+    | some idx1 =>
+      rw [hc] at h
+      obtain ⟨f, ph, hf, hph, hself, hoth⟩ := connect_spec Hk dsha idx idx1 b.bh b.prev b.outs b.prevs hc
+      have hprev : b.prev = first := hlink.1
+      have hph' : ph = firstHeader := by
+        rcases hph with ⟨hz, hp⟩ | ⟨hz, e, he, hp⟩
+        · rcases hfirst with ⟨_, hh⟩ | ⟨hne, _⟩
+          · rw [hp, hh]
+          · exact absurd (hprev ▸ hz) hne
+        · rcases hfirst with ⟨hz', _⟩ | ⟨_, e', he', hh⟩
+          · exact absurd (hprev ▸ hz') hz
+          · rw [hprev, he'] at he; injection he with he; rw [hp, ← he, hh]
+      rw [List.map_cons, List.nodup_cons] at hnd
+      have hbz : b.bh ≠ zeroHash := hnz b List.mem_cons_self
+      have hfh : cfFilterHash Hk dsha b = filterHash dsha f := by unfold cfFilterHash; rw [hf]
+      have ih' := ih idx1 idx' b.bh (filterHeader dsha (filterHash dsha f) ph)
+        (Or.inr ⟨hbz, _, hself, rfl⟩) hlink.2 hnd.2 (fun x hx => hnz x (List.mem_cons_of_mem _ hx)) hnd.1 h
+      have hkeep := connectAll_other Hk dsha bs idx1 idx' b.bh hnd.1 h
+      simp only [List.map_cons, headerChain]
+      rw [hkeep, hself, hfh, ← hph', ih']
+      rfl
+
 /-! ### merkleblock wire codec -/
 
 open PmtWire in
